@@ -1,6 +1,737 @@
-//! stub (engine under construction)
+//! C19: the growing self-organising map behind the default population stays well formed
+//! (stateful histories against a well-formedness predicate; phases of the population only move forward).
+
+use super::common::*;
 use crate::fw::*;
+use proptest::prelude::*;
+use rosomaxa::algorithms::gsom::{Coordinate, Input, Network, NetworkConfig, NetworkState, Storage, StorageFactory};
+use rosomaxa::population::*;
+use rosomaxa::prelude::*;
+use rosomaxa::utils::{Parallelism, Timer};
+use rosomaxa::{HeuristicSpeed, HeuristicStatistics};
+use serde::{Deserialize, Serialize};
+use serde_json::json;
+use std::cmp::Ordering;
+use std::collections::HashSet;
+use std::fmt::{Display, Formatter};
+use std::ops::RangeBounds;
+use std::sync::Arc;
+
+// ---------------------------------------------------------------------------------------------
+// input streams (shared by both sub-checks)
+// ---------------------------------------------------------------------------------------------
+
+#[derive(Clone, Copy, Debug, Serialize, Deserialize)]
+pub enum Stream {
+    /// four tight clusters 100 apart, spread 0.01 inside
+    Clustered,
+    /// at most 3 values per dimension: many exact duplicates
+    Duplicated,
+    /// general values, ~10% of the items scaled by 1e6
+    Outliers,
+    /// every item is the same vector (k*1000 + d*k per dimension; k may be 0)
+    Constant(i8),
+    /// only dimension j varies, the others are 1.0
+    OneVarying(u8),
+    General,
+    /// per item one of the above
+    Mixed,
+}
+
+#[derive(Clone, Debug, Serialize, Deserialize)]
+pub struct ItemSpec {
+    /// cluster selector (c % 4), outlier flag (c >= 230), sub-stream selector for Mixed (c % 5)
+    pub c: u8,
+    pub v: Vec<i16>,
+}
+
+fn stream() -> impl Strategy<Value = Stream> {
+    prop_oneof![
+        3 => Just(Stream::Clustered),
+        2 => Just(Stream::Duplicated),
+        2 => Just(Stream::Outliers),
+        1 => (-3i8..=3).prop_map(Stream::Constant),
+        1 => any::<u8>().prop_map(Stream::OneVarying),
+        3 => Just(Stream::General),
+        2 => Just(Stream::Mixed),
+    ]
+}
+
+fn item_spec(dim: usize) -> impl Strategy<Value = ItemSpec> {
+    (any::<u8>(), prop::collection::vec(-300i16..=300, dim)).prop_map(|(c, v)| ItemSpec { c, v })
+}
+
+/// Finite weight vector of exactly `dim` components (by construction).
+fn weights_of(stream: Stream, s: &ItemSpec, dim: usize) -> Vec<f64> {
+    let v = |d: usize| s.v.get(d).copied().unwrap_or(0) as f64;
+    (0..dim)
+        .map(|d| match stream {
+            Stream::Clustered => ((s.c as usize % 4 * 7 + d * 3) % 5) as f64 * 100. + v(d) * 0.01,
+            Stream::Duplicated => (v(d) as i64).rem_euclid(3) as f64,
+            Stream::Outliers => v(d) * 0.37 * if s.c >= 230 { 1e6 } else { 1. },
+            Stream::Constant(k) => k as f64 * 1000. + d as f64 * k as f64,
+            Stream::OneVarying(j) => {
+                if d == j as usize % dim {
+                    v(d) * 0.37
+                } else {
+                    1.
+                }
+            }
+            Stream::General => v(d) * 0.37,
+            Stream::Mixed => {
+                let sub = [Stream::Clustered, Stream::Duplicated, Stream::Outliers, Stream::General, Stream::Constant(1)][s.c as usize % 5];
+                weights_of(sub, s, dim)[d]
+            }
+        })
+        .collect()
+}
+
+fn stream_class(s: Stream) -> &'static str {
+    match s {
+        Stream::Clustered => "clustered",
+        Stream::Duplicated => "duplicated",
+        Stream::Outliers => "outliers",
+        Stream::Constant(_) => "constant",
+        Stream::OneVarying(_) => "one_varying_dimension",
+        Stream::General => "general",
+        Stream::Mixed => "mixed",
+    }
+}
+
+// ---------------------------------------------------------------------------------------------
+// sub-check 1: Network through its public API with a harness Input / bounded Storage
+// ---------------------------------------------------------------------------------------------
+
+pub struct Item {
+    id: u32,
+    w: Vec<f64>,
+    touched: u32,
+}
+
+impl Input for Item {
+    fn weights(&self) -> &[Float] {
+        &self.w
+    }
+}
+
+/// Bounded storage: keeps at most `cap` items (evicts the oldest or refuses the newest).
+pub struct BoundedStorage {
+    cap: usize,
+    evict_newest: bool,
+    data: Vec<Item>,
+}
+
+impl Storage for BoundedStorage {
+    type Item = Item;
+    fn add(&mut self, input: Item) {
+        self.data.push(input);
+        if self.data.len() > self.cap {
+            if self.evict_newest {
+                self.data.pop();
+            } else {
+                self.data.remove(0);
+            }
+        }
+    }
+    fn iter(&self) -> Box<dyn Iterator<Item = &'_ Item> + '_> {
+        Box::new(self.data.iter())
+    }
+    fn drain<R>(&mut self, range: R) -> Vec<Item>
+    where
+        R: RangeBounds<usize>,
+    {
+        self.data.drain(range).collect()
+    }
+    fn resize(&mut self, size: usize) {
+        self.cap = size;
+        self.data.truncate(size);
+    }
+    fn size(&self) -> usize {
+        self.data.len()
+    }
+}
+
+impl Display for BoundedStorage {
+    fn fmt(&self, f: &mut Formatter<'_>) -> std::fmt::Result {
+        write!(f, "{}/{}", self.data.len(), self.cap)
+    }
+}
+
+pub struct Factory {
+    cap: usize,
+    evict_newest: bool,
+}
+
+impl StorageFactory<(), Item, BoundedStorage> for Factory {
+    fn eval(&self, _: &()) -> BoundedStorage {
+        BoundedStorage { cap: self.cap, evict_newest: self.evict_newest, data: vec![] }
+    }
+}
+
+type Net = Network<(), Item, BoundedStorage, Factory>;
+
+#[derive(Clone, Debug, Serialize, Deserialize)]
+pub struct NetCfg {
+    pub node_size: u8,
+    /// spread factor, distribution factor, learning rate in 1/1000 (1..=999: exclusive (0,1))
+    pub spread: u16,
+    pub distribution: u16,
+    pub learning_rate: u16,
+    pub rebalance: u8,
+    pub has_initial_error: bool,
+    pub evict_newest: bool,
+}
+
+#[derive(Clone, Debug, Serialize, Deserialize)]
+pub enum NetOp {
+    /// store_batch(items, time += step)
+    Store(Vec<ItemSpec>, u8),
+    Smooth(u8),
+    Compact,
+    /// set_learning_rate(x/1000), x in 1..=1000 (the shipped caller uses [0.1, 1.0])
+    SetLearningRate(u16),
+}
+
+#[derive(Clone, Debug, Serialize, Deserialize)]
+pub struct NetCase {
+    pub dim: u8,
+    pub stream: Stream,
+    pub cfg: NetCfg,
+    pub seed: u64,
+    pub probe: (i8, i8),
+    pub initial: Vec<ItemSpec>,
+    pub ops: Vec<NetOp>,
+}
+
+/// `long == false`: mixed op histories; `long == true`: long store-dominated streams (hundreds of
+/// store_batch calls between rare smooth/compact calls), same check.
+pub struct NetProp {
+    pub long: bool,
+}
+
+fn factor() -> impl Strategy<Value = u16> {
+    // uniform over (0,1) plus both ends of the open interval
+    prop_oneof![6 => 1u16..=999, 2 => 900u16..=999, 1 => 1u16..=20]
+}
+
+fn net_cfg() -> impl Strategy<Value = NetCfg> {
+    (1u8..=4, factor(), factor(), 1u16..=999, prop_oneof![3 => 1u8..=200, 1 => 1u8..=4], any::<bool>(), any::<bool>()).prop_map(
+        |(node_size, spread, distribution, learning_rate, rebalance, has_initial_error, evict_newest)| NetCfg { node_size, spread, distribution, learning_rate, rebalance, has_initial_error, evict_newest },
+    )
+}
+
+fn net_op(dim: usize) -> impl Strategy<Value = NetOp> {
+    prop_oneof![
+        7 => (prop::collection::vec(item_spec(dim), 0..=12), prop_oneof![4 => 0u8..=3, 1 => 0u8..=250]).prop_map(|(items, step)| NetOp::Store(items, step)),
+        2 => (0u8..=2).prop_map(NetOp::Smooth),
+        2 => Just(NetOp::Compact),
+        1 => (1u16..=1000).prop_map(NetOp::SetLearningRate),
+    ]
+}
+
+struct Wf {
+    size: usize,
+    ids: HashSet<u32>,
+    /// number of distinct weight vectors among the stored items (`smooth` dedups equal inputs by design)
+    distinct: usize,
+    keys: Vec<Coordinate>,
+    max_error: f64,
+}
+
+/// Well-formedness predicate of the property, evaluated through the public API only.
+fn well_formed(net: &Net, dim: usize, cap: usize, max_id: u32, probe: Coordinate, at: &str) -> Result<Wf, Failure> {
+    let entries = net.iter().collect::<Vec<_>>();
+    let size = net.size();
+    ensure!(entries.len() == size && net.get_nodes().count() == size, "gsom:size-vs-iter", "{at}: size() {size} but iter() yields {} and get_nodes() {}", entries.len(), net.get_nodes().count());
+    ensure!(size >= 4, "gsom:fewer-than-four-nodes", "{at}: network has {size} nodes");
+    ensure!(net.dimension() == dim, "gsom:dimension", "{at}: dimension() {} != input dimension {dim}", net.dimension());
+    let keys = entries.iter().map(|(k, _)| **k).collect::<HashSet<_>>();
+    ensure!(keys.len() == size, "gsom:duplicate-key", "{at}: {} distinct keys for {size} nodes", keys.len());
+    let node_coords = entries.iter().map(|(_, n)| n.coordinate).collect::<HashSet<_>>();
+    ensure!(node_coords.len() == size, "gsom:duplicate-node-coordinate", "{at}: {} distinct node coordinates for {size} nodes", node_coords.len());
+    ensure!(net.get_coordinates().collect::<HashSet<_>>() == keys, "gsom:coordinates-vs-iter", "{at}: get_coordinates() differs from the keys of iter()");
+
+    let (mut ids, mut stored, mut distinct, mut max_error) = (HashSet::new(), 0usize, HashSet::new(), 0f64);
+    for (key, node) in entries.iter() {
+        ensure!(**key == node.coordinate, "gsom:key-vs-coordinate", "{at}: key {key} holds a node with coordinate {}", node.coordinate);
+        match net.find(key) {
+            Some(found) => ensure!(std::ptr::eq(found, *node), "gsom:find-other-node", "{at}: find({key}) returned node {}", found.coordinate),
+            None => return Err(Failure::new("gsom:find-misses-present", format!("{at}: find({key}) is None for a key of iter()"))),
+        }
+        ensure!(node.weights.len() == dim, "gsom:weight-dimension", "{at}: node {key} has {} weights, input dimension {dim}", node.weights.len());
+        ensure!(node.weights.iter().all(|w| w.is_finite()), "gsom:weight-not-finite", "{at}: node {key} weights {:?}", node.weights);
+        ensure!(node.storage.size() <= cap, "gsom:storage-over-capacity", "{at}: node {key} stores {} items, capacity {cap}", node.storage.size());
+        ensure!(node.error.is_finite(), "gsom:node-error-not-finite", "{at}: node {key} error {}", node.error);
+        max_error = max_error.max(node.error);
+        let (mse, ud) = (node.mse(net), node.unified_distance(net, 1));
+        ensure!(mse.is_finite(), "gsom:node-mse-not-finite", "{at}: node {key} mse {mse}");
+        ensure!(ud.is_finite(), "gsom:unified-distance-not-finite", "{at}: node {key} unified distance {ud}");
+        for item in node.storage.iter() {
+            stored += 1;
+            ensure!(item.id >= 1 && item.id <= max_id, "gsom:foreign-item", "{at}: node {key} stores item {} never offered", item.id);
+            ensure!(ids.insert(item.id), "gsom:item-stored-twice", "{at}: item {} is stored twice", item.id);
+            distinct.insert(item.w.iter().map(|w| w.to_bits()).collect::<Vec<_>>());
+        }
+    }
+    ensure!(stored <= max_id as usize, "gsom:more-stored-than-offered", "{at}: {stored} items stored, {max_id} offered");
+    let (mse, mud) = (net.mse(), net.max_unified_distance());
+    ensure!(mse.is_finite(), "gsom:mse-not-finite", "{at}: mse() = {mse}");
+    ensure!(mud.is_finite(), "gsom:max-unified-distance-not-finite", "{at}: max_unified_distance() = {mud}");
+
+    // lookups of absent coordinates: just outside the bounding box, holes next to nodes, a generated probe
+    let (x_min, x_max) = (keys.iter().map(|k| k.0).min().unwrap(), keys.iter().map(|k| k.0).max().unwrap());
+    let (y_min, y_max) = (keys.iter().map(|k| k.1).min().unwrap(), keys.iter().map(|k| k.1).max().unwrap());
+    let outside = [Coordinate(x_min - 1, y_min), Coordinate(x_max + 1, y_max), Coordinate(x_min, y_min - 1), Coordinate(x_max, y_max + 1)];
+    let holes = keys.iter().flat_map(|k| [Coordinate(k.0 + 1, k.1), Coordinate(k.0 - 1, k.1), Coordinate(k.0, k.1 + 1), Coordinate(k.0, k.1 - 1)]).filter(|c| !keys.contains(c)).take(24);
+    for c in outside.into_iter().chain(holes).chain(std::iter::once(probe)) {
+        let found = net.find(&c).map(|n| n.coordinate);
+        ensure!(found.is_some() == keys.contains(&c) && found.is_none_or(|f| f == c), "gsom:find-absent", "{at}: find({c}) = {found:?}, coordinate present: {}", keys.contains(&c));
+    }
+    Ok(Wf { size, ids, distinct: distinct.len(), keys: keys.into_iter().collect(), max_error })
+}
+
+/// Number of nodes the documented decimation (rows/columns at multiples of 3 resp. 4, both 4 for a
+/// square map) removes; `None` when fewer than four nodes would remain (documented no-op).
+fn documented_decimation(keys: &[Coordinate]) -> Option<usize> {
+    let (dx, dy) = (keys.iter().map(|k| k.0).max()? - keys.iter().map(|k| k.0).min()?, keys.iter().map(|k| k.1).max()? - keys.iter().map(|k| k.1).min()?);
+    let (xd, yd) = match dx.cmp(&dy) {
+        Ordering::Greater => (3, 4),
+        Ordering::Less => (4, 3),
+        Ordering::Equal => (4, 4),
+    };
+    let removed = keys.iter().filter(|k| k.0 % xd == 0 || k.1 % yd == 0).count();
+    if keys.len() - removed < 4 { None } else { Some(removed) }
+}
+
+impl Prop for NetProp {
+    type Case = NetCase;
+    fn name(&self) -> &'static str {
+        if self.long { "gsom_long_stream" } else { "gsom_network" }
+    }
+    fn strategy(&self, tier: Tier) -> BoxedStrategy<NetCase> {
+        let long = self.long;
+        let ops_range = if long { 200usize..=tier.pick(700, 1200) } else { 1usize..=tier.pick(60, 200) };
+        // long streams: half of the configurations have a low growing threshold / high error distribution
+        let cfg = (net_cfg(), 985u16..=999, 900u16..=999, any::<bool>()).prop_map(move |(cfg, spread, distribution, bias)| if long && bias { NetCfg { spread, distribution, ..cfg } } else { cfg });
+        (1usize..=8, stream(), cfg, any::<u64>(), (-6i8..=6, -6i8..=6))
+            .prop_flat_map(move |(dim, stream, cfg, seed, probe)| {
+                let op = if long {
+                    prop_oneof![
+                        80 => (prop::collection::vec(item_spec(dim), 1..=12), 0u8..=2).prop_map(|(items, step)| NetOp::Store(items, step)),
+                        1 => net_op(dim),
+                    ]
+                    .boxed()
+                } else {
+                    net_op(dim).boxed()
+                };
+                (prop::collection::vec(item_spec(dim), 4..=40), prop::collection::vec(op, ops_range.clone()))
+                    .prop_map(move |(initial, ops)| NetCase { dim: dim as u8, stream, cfg: cfg.clone(), seed, probe, initial, ops })
+            })
+            .boxed()
+    }
+    fn cases(&self, tier: Tier) -> u32 {
+        if self.long { tier.pick(320, 6_000) } else { tier.pick(12_000, 250_000) }
+    }
+    fn shards(&self, _tier: Tier) -> u32 {
+        16
+    }
+    fn max_shrink_iters(&self) -> u32 {
+        // Network::new iterates a std HashMap (RandomState) while creating the initial nodes, so a case is
+        // not reproducible run to run even with a seeded Random: shrinking long flaky cases only loses them
+        if self.long { 0 } else { 2000 }
+    }
+    fn check(&self, c: &NetCase, stats: &Stats) -> Check {
+        let name = Prop::name(self);
+        let dim = c.dim as usize;
+        let cap = c.cfg.node_size as usize;
+        let evict_newest = c.cfg.evict_newest;
+        let probe = Coordinate(c.probe.0 as i32, c.probe.1 as i32);
+        let mut next_id = 0u32;
+        let mut make = |specs: &[ItemSpec]| -> Vec<Item> {
+            specs
+                .iter()
+                .map(|s| {
+                    next_id += 1;
+                    Item { id: next_id, w: weights_of(c.stream, s, dim), touched: 0 }
+                })
+                .collect()
+        };
+        let config = NetworkConfig {
+            node_size: cap,
+            spread_factor: c.cfg.spread as f64 / 1000.,
+            distribution_factor: c.cfg.distribution as f64 / 1000.,
+            learning_rate: c.cfg.learning_rate as f64 / 1000.,
+            rebalance_memory: c.cfg.rebalance as usize,
+            has_initial_error: c.cfg.has_initial_error,
+        };
+        let initial = make(&c.initial);
+        let initial_distinct = initial.iter().map(|i| i.w.iter().map(|w| w.to_bits()).collect::<Vec<_>>()).collect::<HashSet<_>>().len();
+        let random: Arc<dyn Random> = Arc::new(SeededRandom::new(c.seed));
+        let created = guard(|| Net::new(&(), initial, config, random, |size| Factory { cap: size, evict_newest }))
+            .map_err(|p| Failure::new(format!("gsom:panic:{}", panic_site(&p)), format!("Network::new panicked on {} items of dimension {dim}: {p}", c.initial.len())))?;
+        let mut net = created.map_err(|e| Failure::new("gsom:new-rejected", format!("Network::new rejected {} items of dimension {dim} (>= 4 given): {e}", c.initial.len())))?;
+
+        let mut max_id = c.initial.len() as u32;
+        let mut wf = well_formed(&net, dim, cap, max_id, probe, "after Network::new")?;
+        ensure!(wf.ids.len() >= initial_distinct.min(cap), "gsom:items-lost", "after Network::new: {} items kept of {initial_distinct} distinct inputs, node capacity {cap}", wf.ids.len());
+        let (grew_in_new, mut grew, mut compacted, mut grew_then_compacted, mut evicted) = (wf.size > 4, false, false, false, false);
+        let (mut time, mut max_error) = (0usize, wf.max_error);
+
+        for (step, op) in c.ops.iter().enumerate() {
+            let at = format!("step {step} {}", match op {
+                NetOp::Store(items, _) => format!("store_batch({} items)", items.len()),
+                other => format!("{other:?}"),
+            });
+            let before = wf;
+            let decimation = documented_decimation(&before.keys);
+            let mut offered_now = 0usize;
+            let call = guard(|| match op {
+                NetOp::Store(items, step_by) => {
+                    time += *step_by as usize;
+                    let data = make(items);
+                    offered_now = data.len();
+                    net.store_batch(&(), data, time);
+                }
+                NetOp::Smooth(n) => net.smooth(&(), *n as usize, |i| i.touched += 1),
+                NetOp::Compact => net.compact(&()),
+                NetOp::SetLearningRate(x) => net.set_learning_rate(*x as f64 / 1000.),
+            });
+            call.map_err(|p| Failure::new(format!("gsom:panic:{}", panic_site(&p)), format!("{at} panicked: {p}")))?;
+            max_id += offered_now as u32;
+            wf = well_formed(&net, dim, cap, max_id, probe, &format!("after {at}"))?;
+            max_error = max_error.max(wf.max_error);
+            ensure!(net.get_current_time() == time, "gsom:time", "after {at}: current time {} != last store time {time}", net.get_current_time());
+
+            // items: nothing foreign appears, nothing is lost beyond capacity eviction / documented dedup
+            let (b, a) = (before.ids.len(), wf.ids.len());
+            let lower = match op {
+                NetOp::Store(..) => (b + offered_now).min(cap),
+                NetOp::Smooth(0) | NetOp::SetLearningRate(_) => b,
+                NetOp::Smooth(_) => before.distinct.min(cap),
+                NetOp::Compact => b.min(cap),
+            };
+            ensure!(a >= lower, "gsom:items-lost", "after {at}: {a} items stored, {b} before ({} distinct), node capacity {cap}: at least {lower} must remain", before.distinct);
+            if !matches!(op, NetOp::Store(..)) {
+                ensure!(wf.ids.is_subset(&before.ids), "gsom:items-appeared", "after {at}: items stored that were not stored before and not offered");
+            }
+            if a < b + offered_now {
+                evicted = true;
+            }
+            match op {
+                NetOp::Store(..) => {
+                    ensure!(wf.size >= before.size, "gsom:store-shrank", "after {at}: size {} -> {}", before.size, wf.size);
+                    if wf.size > before.size {
+                        grew = true;
+                        stats.class(&format!("{name}.op.store_grew"));
+                    }
+                }
+                NetOp::Smooth(_) | NetOp::SetLearningRate(_) => {
+                    ensure!(wf.size == before.size, "gsom:size-changed", "after {at}: size {} -> {}", before.size, wf.size);
+                }
+                NetOp::Compact => {
+                    ensure!(wf.size <= before.size, "gsom:compact-grew", "after {at}: size {} -> {}", before.size, wf.size);
+                    ensure!(wf.size >= 4, "gsom:compact-below-four", "after {at}: size {} -> {}", before.size, wf.size);
+                    if wf.size < before.size {
+                        compacted = true;
+                        grew_then_compacted |= grew || grew_in_new;
+                        stats.class(&format!("{name}.op.compact_removed_nodes"));
+                    } else {
+                        stats.class(&format!("{name}.op.compact_noop"));
+                    }
+                    // exact node count is not part of the statement: classified, not asserted
+                    if before.size - wf.size != decimation.unwrap_or(0) {
+                        stats.class(&format!("{name}.unspecified.compact_differs_from_documented_decimation"));
+                    }
+                }
+            }
+        }
+
+        stats.eval();
+        stats.class(&format!("{name}.stream.{}", stream_class(c.stream)));
+        stats.class_max(&format!("{name}.max_nodes_seen"), wf.size as u64);
+        stats.class_max(&format!("{name}.max_node_error_log10_seen"), max_error.max(1.).log10() as u64);
+        stats.class_max(&format!("{name}.max_items_offered_seen"), max_id as u64);
+        for (flag, flag_name) in [(grew_in_new, "grew_in_constructor"), (grew, "grew"), (compacted, "compact_removed_nodes"), (grew_then_compacted, "grew_then_compacted"), (evicted, "capacity_eviction_or_dedup")] {
+            if flag {
+                stats.class(&format!("{name}.{flag_name}"));
+            }
+        }
+        if grew_then_compacted {
+            stats.nontrivial(hash_of(&format!("{c:?}")));
+        }
+        stats.sample(if self.long { 3 } else { 2 }, || json!({"kind": name, "dim": dim, "stream": stream_class(c.stream), "cfg": format!("{:?}", c.cfg), "initial": c.initial.len(), "ops": c.ops.len(), "final_nodes": wf.size}));
+        Ok(())
+    }
+}
+
+// ---------------------------------------------------------------------------------------------
+// sub-check 2: Rosomaxa population driven by long streams and generation statistics
+// ---------------------------------------------------------------------------------------------
+
+#[derive(Clone, Debug)]
+pub struct Ind {
+    pub fitness: Vec<f64>,
+    pub weights: Vec<f64>,
+}
+
+impl HeuristicSolution for Ind {
+    fn fitness(&self) -> impl Iterator<Item = Float> {
+        self.fitness.iter().copied()
+    }
+    fn deep_copy(&self) -> Self {
+        self.clone()
+    }
+}
+
+impl Input for Ind {
+    fn weights(&self) -> &[Float] {
+        &self.weights
+    }
+}
+
+pub struct Ctx;
+
+impl RosomaxaContext for Ctx {
+    type Solution = Ind;
+    fn on_change(&mut self, _: &[Ind]) {}
+}
+
+impl RosomaxaSolution for Ind {
+    type Context = Ctx;
+    fn on_init(&mut self, _: &Ctx) {}
+    fn on_update(&mut self, _: &Ctx) {}
+}
+
+#[derive(Clone)]
+pub struct LexObjective;
+
+impl HeuristicObjective for LexObjective {
+    type Solution = Ind;
+    fn total_order(&self, a: &Ind, b: &Ind) -> Ordering {
+        a.fitness.iter().zip(b.fitness.iter()).map(|(x, y)| x.total_cmp(y)).find(|o| *o != Ordering::Equal).unwrap_or(Ordering::Equal)
+    }
+}
+
+impl Alternative for LexObjective {
+    fn maybe_new(&self, _: &dyn Random) -> Self {
+        self.clone()
+    }
+}
+
+#[derive(Clone, Debug, Serialize, Deserialize)]
+pub struct RosoCfg {
+    pub initial: u8,
+    pub selection: u8,
+    pub elite: u8,
+    pub node: u8,
+    pub spread: u16,
+    pub distribution: u16,
+    pub rebalance: u8,
+    /// exploration ratio in 1/10
+    pub exploration: u8,
+}
+
+#[derive(Clone, Debug, Serialize, Deserialize)]
+pub struct Tick {
+    /// (fitness components, weights spec)
+    pub batch: Vec<(Vec<i8>, ItemSpec)>,
+    pub gen_step: u8,
+    /// jitter of the termination estimate in 1/100 around the ramp
+    pub jitter: i8,
+    pub speed: u8,
+    pub select: bool,
+}
+
+#[derive(Clone, Debug, Serialize, Deserialize)]
+pub struct RosoCase {
+    pub cfg: RosoCfg,
+    pub wdims: u8,
+    pub stream: Stream,
+    pub seed: u64,
+    /// termination estimate reached at the last tick, in percent (50..=150, clamped to [0,1])
+    pub ramp: u8,
+    pub ticks: Vec<Tick>,
+}
+
+pub struct RosoProp;
+
+fn tick(wdims: usize) -> impl Strategy<Value = Tick> {
+    let ind = (prop::collection::vec(-6i8..12, 2), item_spec(wdims));
+    (prop::collection::vec(ind, 0..=6), prop_oneof![3 => 1u8..=1, 2 => 0u8..=3], prop_oneof![3 => Just(0i8), 1 => -3i8..=3], 0u8..3, prop::bool::weighted(0.3))
+        .prop_map(|(batch, gen_step, jitter, speed, select)| Tick { batch, gen_step, jitter, speed, select })
+}
+
+fn check_state(state: &NetworkState, wdims: usize, at: &str) -> Check {
+    ensure!(state.nodes.len() >= 4, "roso:state-fewer-than-four-nodes", "{at}: exported state has {} nodes", state.nodes.len());
+    let coords = state.nodes.iter().map(|n| n.coordinate).collect::<HashSet<_>>();
+    ensure!(coords.len() == state.nodes.len(), "roso:state-duplicate-coordinate", "{at}: {} distinct coordinates for {} nodes", coords.len(), state.nodes.len());
+    ensure!(state.shape.2 == wdims, "roso:state-dimension", "{at}: shape dimension {} != weights dimension {wdims}", state.shape.2);
+    ensure!(state.mse.is_finite(), "roso:state-mse-not-finite", "{at}: network mse {}", state.mse);
+    for n in state.nodes.iter() {
+        ensure!(n.weights.len() == wdims, "roso:state-weight-dimension", "{at}: node {:?} has {} weights, expected {wdims}", n.coordinate, n.weights.len());
+        ensure!(n.weights.iter().all(|w| w.is_finite()), "roso:state-weight-not-finite", "{at}: node {:?} weights {:?}", n.coordinate, n.weights);
+        ensure!(n.mse.is_finite() && n.unified_distance.is_finite(), "roso:state-measure-not-finite", "{at}: node {:?} mse {} unified distance {}", n.coordinate, n.mse, n.unified_distance);
+    }
+    Ok(())
+}
+
+impl Prop for RosoProp {
+    type Case = RosoCase;
+    fn name(&self) -> &'static str {
+        "gsom_rosomaxa"
+    }
+    fn strategy(&self, tier: Tier) -> BoxedStrategy<RosoCase> {
+        let max_ticks = tier.pick(120usize, 300usize);
+        let cfg = (4u8..=12, 2u8..=8, 1u8..=4, 1u8..=3, factor(), factor(), prop_oneof![3 => 1u8..=12, 1 => 1u8..=200], prop_oneof![4 => 5u8..=10, 1 => 0u8..=10])
+            .prop_map(|(initial, selection, elite, node, spread, distribution, rebalance, exploration)| RosoCfg { initial, selection, elite, node, spread, distribution, rebalance, exploration });
+        (cfg, 1usize..=8, stream(), any::<u64>(), 50u8..=150)
+            .prop_flat_map(move |(cfg, wdims, stream, seed, ramp)| {
+                prop::collection::vec(tick(wdims), 10..=max_ticks).prop_map(move |ticks| RosoCase { cfg: cfg.clone(), wdims: wdims as u8, stream, seed, ramp, ticks })
+            })
+            .boxed()
+    }
+    fn cases(&self, tier: Tier) -> u32 {
+        tier.pick(5_000, 80_000)
+    }
+    fn shards(&self, _tier: Tier) -> u32 {
+        16
+    }
+    fn check(&self, c: &RosoCase, stats: &Stats) -> Check {
+        let wdims = c.wdims as usize;
+        let env = quiet_env(c.seed, Parallelism::new(1, 1), None);
+        let config = RosomaxaConfig {
+            initial_size: c.cfg.initial as usize,
+            selection_size: c.cfg.selection as usize,
+            elite_size: c.cfg.elite as usize,
+            node_size: c.cfg.node as usize,
+            spread_factor: c.cfg.spread as f64 / 1000.,
+            distribution_factor: c.cfg.distribution as f64 / 1000.,
+            rebalance_memory: c.cfg.rebalance as usize,
+            exploration_ratio: c.cfg.exploration as f64 / 10.,
+        };
+        let mut pop = Rosomaxa::new(Ctx, Arc::new(LexObjective), env, config).map_err(|e| Failure::new("roso:new-rejected", format!("valid config rejected: {e}")))?;
+        let rank = |p: &SelectionPhase| match p {
+            SelectionPhase::Initial => 0,
+            SelectionPhase::Exploration => 1,
+            SelectionPhase::Exploitation => 2,
+        };
+        let (mut generation, mut phase) = (0usize, rank(&pop.selection_phase()));
+        ensure!(phase == 0, "roso:phase-not-initial", "a new population starts in phase rank {phase}");
+        let mut phases = vec![phase];
+        let (mut states, mut rebalance_hits, mut grew, mut shrank, mut last_nodes) = (0u64, 0u64, false, false, None::<usize>);
+        let total = c.ticks.len();
+
+        for (step, t) in c.ticks.iter().enumerate() {
+            let batch = t
+                .batch
+                .iter()
+                .map(|(f, s)| Ind { fitness: f.iter().map(|x| *x as f64).collect(), weights: weights_of(c.stream, s, wdims) })
+                .collect::<Vec<_>>();
+            generation += t.gen_step as usize;
+            let estimate = ((step + 1) as f64 / total as f64 * c.ramp as f64 / 100. + t.jitter as f64 / 100.).clamp(0., 1.);
+            let statistics = HeuristicStatistics {
+                generation,
+                time: Timer::start(),
+                speed: match t.speed {
+                    0 => HeuristicSpeed::Unknown,
+                    1 => HeuristicSpeed::Moderate { average: 100., median: Some(10) },
+                    _ => HeuristicSpeed::Slow { ratio: 0.5, average: 1., median: Some(1000) },
+                },
+                improvement_all_ratio: 0.1,
+                improvement_1000_ratio: 0.05 + (generation % 7) as f64 * 0.05,
+                termination_estimate: estimate,
+            };
+            let was_exploring = phase == 1;
+            guard(|| {
+                pop.add_all(batch);
+                pop.on_generation(&statistics);
+                if t.select {
+                    let _ = pop.select().count();
+                }
+            })
+            .map_err(|p| Failure::new(format!("roso:panic:{}", panic_site(&p)), format!("tick {step} (generation {generation}, estimate {estimate}) panicked: {p}")))?;
+
+            let at = format!("tick {step} (generation {generation}, estimate {estimate:.3})");
+            let now = rank(&pop.selection_phase());
+            ensure!(now >= phase, "roso:phase-backwards", "{at}: phase rank went {phase} -> {now}");
+            if now != phase {
+                phases.push(now);
+            }
+            phase = now;
+            ensure!(pop.size() <= c.cfg.elite as usize, "roso:elite-over-bound", "{at}: size() {} exceeds elite size {}", pop.size(), c.cfg.elite);
+            ensure!(pop.ranked().count() == pop.size(), "roso:size-vs-ranked", "{at}: size() {} != ranked count {}", pop.size(), pop.ranked().count());
+
+            let state = NetworkState::try_from(&pop);
+            if phase == 1 {
+                let state = state.map_err(|e| Failure::new("roso:state-unavailable", format!("{at}: exploration phase but no network state: {e}")))?;
+                check_state(&state, wdims, &at)?;
+                let in_nodes = pop.all().count() - pop.size();
+                ensure!(in_nodes <= state.nodes.len() * c.cfg.node as usize, "roso:nodes-over-capacity", "{at}: {in_nodes} individuals in {} nodes of capacity {}", state.nodes.len(), c.cfg.node);
+                states += 1;
+                if was_exploring && generation % c.cfg.rebalance as usize == 0 {
+                    rebalance_hits += 1;
+                }
+                if let Some(last) = last_nodes {
+                    grew |= state.nodes.len() > last;
+                    shrank |= state.nodes.len() < last;
+                }
+                last_nodes = Some(state.nodes.len());
+                stats.class_max("gsom_rosomaxa.max_nodes_seen", state.nodes.len() as u64);
+            } else if state.is_ok() {
+                stats.class("gsom_rosomaxa.unspecified.state_outside_exploration");
+            }
+        }
+
+        stats.eval();
+        stats.class_n("gsom_rosomaxa.states_checked", states);
+        stats.class_n("gsom_rosomaxa.exploring_tick_at_rebalance_multiple", rebalance_hits);
+        stats.class(&format!("gsom_rosomaxa.stream.{}", stream_class(c.stream)));
+        for (flag, name) in [(phases.contains(&1), "exploration_reached"), (phases == [0, 1, 2], "all_three_phases"), (phases == [0, 2], "exploration_skipped"), (grew, "network_grew"), (shrank, "network_compacted"), (grew && shrank, "network_grew_and_compacted")] {
+            if flag {
+                stats.class(&format!("gsom_rosomaxa.{name}"));
+            }
+        }
+        if states > 0 && (grew || shrank) {
+            stats.nontrivial(hash_of(&format!("{c:?}")));
+        }
+        stats.sample(4, || json!({"kind": "gsom_rosomaxa", "cfg": format!("{:?}", c.cfg), "wdims": wdims, "stream": stream_class(c.stream), "ticks": total, "phases": phases, "states_checked": states}));
+        Ok(())
+    }
+}
 
 pub fn property(_tier: Tier) -> PropertyDef {
-    PropertyDef { id: "STUB", level: "exploration", rule: "stub", assumptions: vec![], props: vec![], extra: None, required_classes: vec!["stub.never"] }
+    PropertyDef {
+        id: "C19",
+        level: "exploration",
+        rule: "proptest stateful histories. (gsom_network) rosomaxa::algorithms::gsom::Network over a harness Input {id, weights} and a bounded harness Storage (keeps at most `size` items, evicting the oldest or refusing the newest): input streams of dimension 1-8 that are clustered / heavily duplicated / with 1e6x outliers / constant (incl. all-zero) / varying in one dimension / general / mixed, all finite by construction; NetworkConfig with spread and distribution factor in (0,1) exclusive (uniform plus both ends), node size 1-4, rebalance memory 1-200, learning rate in (0,1), has_initial_error both; Network::new on 4-40 items, then 1-60 ops (thorough 1-200) of store_batch(0-12 items, non-decreasing time) / smooth(0-2) / compact / set_learning_rate((0,1]). (gsom_long_stream) same domain and same check, but 200-700 ops (thorough 1200) of which ~99% are store_batch(1-12 items), half of the configurations with spread in [0.985,0.999] and distribution in [0.9,0.999] (low growing threshold, strong error distribution); not shrunk. After the constructor and after EVERY call WF(network) through the public API: size()==iter/get_nodes count and >= 4, keys unique, node coordinates unique, key == node.coordinate, get_coordinates == keys, find(key) is that very node (pointer), find of absent coordinates (outside the bounding box, holes next to nodes, a generated probe) is None, weights finite and of the input dimension, storage.size() <= node_size, node error / node mse / unified distance / mse() / max_unified_distance() finite, every stored item was offered and is stored once, stored <= offered; per op: compact never grows and never leaves < 4 nodes, smooth and set_learning_rate keep size(), store_batch never shrinks, no foreign items appear, at least min(count, capacity) items survive (for smooth: min(distinct weight vectors, capacity), because retraining dedups equal inputs by design). The exact number of nodes removed by compact is compared with the documented row/column decimation but only classified. (gsom_rosomaxa) rosomaxa::population::Rosomaxa with harness individuals under a lexicographic objective, generated config (initial 4-12, selection 2-8, elite 1-4, node 1-3, spread/distribution in (0,1), rebalance memory 1-200 biased to 1-12, exploration ratio 0-1), 10-120 ticks (thorough 300) of add_all(0-6) + on_generation(statistics: generation += 0-3 so multiples of rebalance memory are hit, termination estimate ramping 0 -> 0.5..1.5 (clamped to [0,1]) with occasional +-0.03 jitter, three speed classes) + optional select; after every tick: phase rank never decreases (Initial -> Exploration -> Exploitation), size() <= elite_size and == ranked count, and while exploring NetworkState::try_from(&population) is Ok with >= 4 nodes, unique coordinates, finite weights of the weights dimension, finite node mse / unified distance / network mse, and the individuals held by nodes (all() minus elite) <= nodes x node_size. Library panics are failures. Non-trivial: network history in which the map grew and a later compact removed >= 1 node; population history with an exported state whose node count changed between ticks. Distinct by case hash.",
+        assumptions: vec![
+            "Network::new gets >= 4 items of one dimension and factors strictly inside (0,1) (the constructor's asserts / sampling minimum); rosomaxa initial_size >= 4 and rebalance_memory >= 1 for the same reason",
+            "store_batch time is non-decreasing (the shipped caller passes the generation counter); termination estimate in [0,1] (asserted by the library)",
+            "learning rates in (0,1] (the shipped schedule yields [0.1,1.0]); smooth's node callback does not change weights (as both shipped RosomaxaSolution implementations)",
+            "item retention lower bounds assume a Storage that holds up to `size` items; duplicates (equal weight vectors) may be dropped by retraining, as coded on purpose",
+            "weights up to ~1e10 in magnitude; non-finite input weights are outside the domain",
+            "Network::new iterates a std HashMap (RandomState) while creating the initial nodes, so histories are not bit-reproducible run to run even with the seeded Random; replays re-run the case several times",
+        ],
+        props: vec![Box::new(NetProp { long: false }), Box::new(NetProp { long: true }), Box::new(RosoProp)],
+        extra: None,
+        required_classes: vec![
+            "gsom_network.grew",
+            "gsom_network.compact_removed_nodes",
+            "gsom_network.grew_then_compacted",
+            "gsom_network.capacity_eviction_or_dedup",
+            "gsom_network.op.compact_noop",
+            "gsom_network.stream.clustered",
+            "gsom_network.stream.duplicated",
+            "gsom_network.stream.outliers",
+            "gsom_network.stream.constant",
+            "gsom_network.stream.one_varying_dimension",
+            "gsom_long_stream.grew",
+            "gsom_long_stream.max_items_offered_seen",
+            "gsom_rosomaxa.states_checked",
+            "gsom_rosomaxa.exploring_tick_at_rebalance_multiple",
+            "gsom_rosomaxa.all_three_phases",
+            "gsom_rosomaxa.network_grew",
+            "gsom_rosomaxa.network_compacted",
+        ],
+    }
 }
